@@ -369,7 +369,11 @@ impl NetcodeServer {
             let packet = Packet::Payload(payload);
             let len = packet.encode(&mut self.out, self.protocol_id, Some((client.sequence, &client.send_key)))?;
             client.sequence += 1;
-            client.last_packet_send_time = self.current_time;
+            // A client still answering the challenge only becomes connected by a keep-alive packet (it ignores payloads),
+            // so until it has confirmed the connection payloads must not postpone the periodic keep-alive.
+            if client.confirmed {
+                client.last_packet_send_time = self.current_time;
+            }
 
             return Ok((client.addr, &mut self.out[..len]));
         }
